@@ -134,29 +134,29 @@ func TestVerifC24Cluster(t *testing.T) {
 				ids, err := fwd(keys)
 				r.Eval(len(keys))
 				if err != nil {
-					r.Fail("cluster:"+who+":lookup-error:"+ns, id, fmt.Sprintf("%s: node %d translating %d known %s keys: %v", stage, k, len(keys), ns, err), cs)
+					r.FailOrUndecided("cluster:"+who+":lookup-error:"+ns, id, fmt.Sprintf("%s: node %d translating %d known %s keys: %v", stage, k, len(keys), ns, err), cs)
 					return false
 				}
 				byID := map[uint64]string{}
 				for j, key := range keys {
 					if ids[j] == 0 {
-						r.Fail("cluster:"+who+":zero-id:"+ns, id, fmt.Sprintf("%s: node %d: %s key %q has id 0", stage, k, ns, key), cs)
+						r.FailOrUndecided("cluster:"+who+":zero-id:"+ns, id, fmt.Sprintf("%s: node %d: %s key %q has id 0", stage, k, ns, key), cs)
 						return false
 					}
 					if other, dup := byID[ids[j]]; dup {
-						r.Fail("cluster:"+who+":id-shared:"+ns, id, fmt.Sprintf("%s: node %d: %s keys %q and %q share id %d", stage, k, ns, other, key, ids[j]), cs)
+						r.FailOrUndecided("cluster:"+who+":id-shared:"+ns, id, fmt.Sprintf("%s: node %d: %s keys %q and %q share id %d", stage, k, ns, other, key, ids[j]), cs)
 						return false
 					}
 					byID[ids[j]] = key
 					if prev, ok := known[key]; ok && prev != ids[j] {
-						r.Fail("cluster:"+who+":id-differs:"+ns, id, fmt.Sprintf("%s: node %d: %s key %q has id %d, first observed on the coordinator as %d", stage, k, ns, key, ids[j], prev), cs)
+						r.FailOrUndecided("cluster:"+who+":id-differs:"+ns, id, fmt.Sprintf("%s: node %d: %s key %q has id %d, first observed on the coordinator as %d", stage, k, ns, key, ids[j], prev), cs)
 						return false
 					} else if !ok && k == coord {
 						known[key] = ids[j]
 					}
 					back, err := rev(ids[j])
 					if err != nil || back != key {
-						r.Fail("cluster:"+who+":reverse:"+ns, id, fmt.Sprintf("%s: node %d: %s id %d -> %q (%v), want %q", stage, k, ns, ids[j], back, err, key), cs)
+						r.FailOrUndecided("cluster:"+who+":reverse:"+ns, id, fmt.Sprintf("%s: node %d: %s id %d -> %q (%v), want %q", stage, k, ns, ids[j], back, err, key), cs)
 						return false
 					}
 				}
@@ -177,7 +177,7 @@ func TestVerifC24Cluster(t *testing.T) {
 				resp, err := api.Query(ctx, &pilosa.QueryRequest{Index: index, Query: fmt.Sprintf("Row(f=%q)", rk)})
 				r.Eval(1)
 				if err != nil {
-					r.Fail("cluster:"+who+":query-error", id, fmt.Sprintf("%s: node %d Row(f=%q): %v", stage, k, rk, err), cs)
+					r.FailOrUndecided("cluster:"+who+":query-error", id, fmt.Sprintf("%s: node %d Row(f=%q): %v", stage, k, rk, err), cs)
 					return false
 				}
 				got := append([]string(nil), resp.Results[0].(*pilosa.Row).Keys...)
@@ -190,7 +190,7 @@ func TestVerifC24Cluster(t *testing.T) {
 				mu.Unlock()
 				sort.Strings(want)
 				if strings.Join(got, "\x00") != strings.Join(want, "\x00") {
-					r.Fail("cluster:"+who+":row-keys", id, fmt.Sprintf("%s: node %d Row(f=%q) = %d keys %.200q, model has %d keys %.200q", stage, k, rk, len(got), got, len(want), want), cs)
+					r.FailOrUndecided("cluster:"+who+":row-keys", id, fmt.Sprintf("%s: node %d Row(f=%q) = %d keys %.200q, model has %d keys %.200q", stage, k, rk, len(got), got, len(want), want), cs)
 					return false
 				}
 				if k != coord {
@@ -233,7 +233,7 @@ func TestVerifC24Cluster(t *testing.T) {
 				wg.Wait()
 				for _, err := range errs {
 					if err != nil {
-						r.Fail("cluster:write-error", id, err.Error(), cs)
+						r.FailOrUndecided("cluster:write-error", id, err.Error(), cs)
 						return
 					}
 				}
@@ -249,7 +249,7 @@ func TestVerifC24Cluster(t *testing.T) {
 				}
 				cs.Steps = append(cs.Steps, fmt.Sprintf("batch: %v", b))
 				if err := write(b); err != nil {
-					r.Fail("cluster:write-error", id, err.Error(), cs)
+					r.FailOrUndecided("cluster:write-error", id, err.Error(), cs)
 					return
 				}
 			}
